@@ -268,3 +268,38 @@ Definition C08_at7 (o : cenv) (f : fenv) (k : kind) (i : ir) : Prop :=
     emit_model7 o f k i = Ok t1 /\ conv_model7 o f k i = Ok i1
     /\ emit_model7 o f k i1 = Ok t2 /\ conv_model7 o f k i1 = Ok i2
     /\ emit_model7 o f k i2 = Ok t3 /\ t2 = t3.
+
+(* ================================================================== *)
+(* a second enlargement: a typed return entry with prose, over the kinds that carry it (rest, function, method)       *)
+(* ================================================================== *)
+Definition ret_kind (k : kind) : bool := match k with KRest | KFunction | KMethod => true | _ => false end.
+Definition ret_kinds : list kind := [KRest; KFunction; KMethod].
+
+(* prose, a declared type, no default *)
+Definition complete_return (g : gparam) : bool :=
+  match fld_str (g_doc g), fld_str (g_typ g), g_default g with
+  | Some _, Some _, None => true
+  | _, _, _ => false
+  end.
+
+Definition complete_ret (i : ir) : bool :=
+  match ir_doc i with Has _ => true | _ => false end
+  && match ir_params i with [] => false | _ => true end
+  && forallb (fun kv => complete_entry (snd kv)) (ir_params i)
+  && match ir_returns i with Has g => complete_return g | _ => false end.
+
+(* summary, parameters and return entry *)
+Definition ret_view (i : ir) : ir := mkIR FNone FNone (ir_doc i) (ir_params i) (ir_returns i) None.
+
+Definition fn_guard_ret (o : cenv) (f : fenv) (kind : str) (i : ir) : bool :=
+  C03Spec.guard_C03 (fn_opts o f kind) (ret_view i)
+  && C03DocLinkDefs.doc_link_ok (ce_w o) (fn_opts o f kind) (ret_view i).
+
+Definition closed_dom_ret (o : cenv) (f : fenv) (i : ir) : bool :=
+  chain_safe ret_kinds i && complete_ret i && guard_C01_rest false i
+  && internal_ok i && internal_ok7 i
+  && fn_guard_ret o f kind_static i && fn_guard_ret o f kind_self i.
+
+Definition w_ret_closed : ir :=
+  mkIR FNone (Has (L "static")) (ir_doc w_closed) (ir_params w_closed)
+       (Has (mkG (Has (L "the result.")) (Has (L "int")) None)) None.
